@@ -93,7 +93,7 @@ func (t *Tape) emit(n int, gen func() int) int {
 
 // Choose returns a uniform value in [0,n).
 func (t *Tape) Choose(n int) int {
-	if n > 1<<31 {
+	if int64(n) > 1<<31 {
 		panic(fmt.Sprint("simrt: Choose bound too large: ", n))
 	}
 	return t.emit(n, func() int { return int(t.next() % uint64(n)) })
@@ -149,9 +149,25 @@ func (t *Tape) Weighted(w []int) int {
 
 // Int63 draws a full-range value for workload generation as two recorded halves.
 func (t *Tape) Int63() int64 {
-	hi := t.Choose(1 << 31)
-	lo := t.Choose(1 << 31)
+	hi := t.choose31()
+	lo := t.choose31()
 	return int64(hi)<<31 | int64(lo)
+}
+
+// choose31 is Choose(1 << 31), written out because that bound does not fit an int on 32-bit platforms.
+func (t *Tape) choose31() uint32 {
+	var v uint32
+	if t.replay {
+		if t.pos < len(t.Vals) {
+			v = t.Vals[t.pos] % (1 << 31)
+		}
+		t.pos++
+		return v
+	}
+	v = uint32(t.next() % (1 << 31))
+	t.Vals = append(t.Vals, v)
+	t.pos++
+	return v
 }
 
 // Uint64 draws a 64 bit value (three recorded parts).
